@@ -511,6 +511,8 @@ def b_type2(ex, st, args, kwargs, n):
         return Ext('cvxopt.modeling.constraint')
     if isinstance(v, AbsVar):
         return Ext('cvxopt.modeling.variable')
+    if isinstance(v, SeqCon):
+        return Ext('builtins.list')
     if isinstance(v, Ref) and st.heap[v.oid].kind == 'abs_func':
         return Ext('cvxopt.modeling._function')
     return _prev_type(ex, st, args, kwargs, n)
@@ -837,6 +839,185 @@ def accessor_outcomes(method):
     return on_outcomes
 
 
+# ------------------------------------------- constructor, lists of any length
+# A list of constraints of symbolic length N is a sequence elem(0..N-1) with
+# the ghost prefix count  before(k, c) = #{p < k : elem(p) = c}  (defined by
+# recursion: before(0, c) = 0, before(k+1, c) = before(k, c) + [elem(k) = c]).
+# Loops over such a sequence are handled by the invariant rule with the
+# containers as ghost arrays: at the head of an arbitrary iteration the arrays
+# are havoced and constrained by the invariant at k, the body is executed
+# once, the invariant at k+1 is an obligation, and after the loop the arrays
+# satisfy the invariant at N.
+ELEM = z3.Function('elem', z3.IntSort(), z3.IntSort(), C)
+BEFORE = z3.Function('before', z3.IntSort(), z3.IntSort(), C, z3.IntSort())
+_seq_ids = [0]
+
+
+def seq_axioms(sid, k, N):
+    c = z3.Const('c_ax', C)
+    return [z3.ForAll([c], BEFORE(sid, 0, c) == 0),
+            z3.ForAll([c], BEFORE(sid, k + 1, c) == BEFORE(sid, k, c) +
+                      z3.If(ELEM(sid, k) == c, 1, 0)),
+            z3.ForAll([c], BEFORE(sid, k, c) >= 0), N >= 0]
+
+
+class SeqCon:
+    """the `constraints` argument: a list of constraints of any length"""
+    def __init__(self, N):
+        _seq_ids[0] += 1
+        self.sid = z3.IntVal(_seq_ids[0])
+        self.N = N
+
+    def abs_comp(self, ex, st, n, g, fid):
+        # [c for c in constraints if type(c) is not constraint]: every
+        # element is a constraint (precondition of the scenario)
+        return ex.alloc(st, 'list', {'items': []}, {'owner': 'FRESH'})
+
+    def abs_loop(self, ex, st, s, fid):
+        return first_loop(ex, st, s, fid, self)
+
+
+def _clists(st):
+    self = st.ghost['op_self']
+    a = st.heap[self.oid].f['attrs']
+    return a['_inequalities'], a['_equalities']
+
+
+def first_loop(ex, st, s, fid, seq):
+    """for c in constraints: append c to the list of its type"""
+    sid, N = seq.sid, seq.N
+    iref, eref = _clists(st)
+    c = z3.Const('c_inv', C)
+    k = z3.Int(ex.fresh('k'))
+
+    def inv(state, kk):
+        I_ = state.heap[iref.oid].f['cnt']
+        E_ = state.heap[eref.oid].f['cnt']
+        return [('_inequalities holds the inequalities among the first k '
+                 'constraints, once per occurrence', z3.ForAll([c], z3.Select(
+                     I_, c) == z3.If(isineq(c), BEFORE(sid, kk, c), 0))),
+                ('_equalities holds the equalities among the first k '
+                 'constraints, once per occurrence', z3.ForAll([c], z3.Select(
+                     E_, c) == z3.If(isineq(c), 0, BEFORE(sid, kk, c))))]
+    for text, g in inv(st, z3.IntVal(0)):
+        st.pc.extend(seq_axioms(sid, z3.IntVal(0), N))
+        ex.oblige(st, 'loop-invariant-init', g, s, 'constructor: ' + text +
+                  ' (k = 0)', extra={'prop': 'C13'})
+
+    def havoc(state, kk):
+        for ref, nm in ((iref, 'I'), (eref, 'E')):
+            o = state.heap[ref.oid]
+            o.f.pop('items', None)
+            o.f['cnt'] = z3.Const(ex.fresh(nm + '@'), CArr)
+        state.pc.extend(seq_axioms(sid, kk, N))
+        for text, g in inv(state, kk):
+            state.pc.append(g)
+    b = st.copy()
+    havoc(b, k)
+    b.pc += [k >= 0, k < N]
+    ex.assign(b, fid, s.target, AbsCon(ELEM(sid, k)), s)
+    for o in ex.exec_block(s.body, b, fid):
+        if o.kind not in ('fall', 'continue'):
+            raise Unsupported('early exit from the loop over constraints')
+        for text, g in inv(o.st, k + 1):
+            ex.oblige(o.st, 'loop-invariant-preserved', g, s,
+                      'constructor: ' + text + ' (k -> k+1)',
+                      extra={'prop': 'C13'})
+        ex.orphans = getattr(ex, 'orphans', [])
+        ex.orphans.extend(o.st.obligs)
+    e = st.copy()
+    havoc(e, N)
+    e.ghost['occ'] = (sid, N)
+    return [Outcome('fall', e)]
+
+
+def clist_loop(ex, st, s, fid, it):
+    """for c in self._inequalities / self._equalities (no item list: the
+    unbounded scenario): the list is some enumeration elem2(0..M-1) of its
+    multiset; invariant over the bookkeeping arrays (see module comment)"""
+    lo = st.heap[it.oid]
+    if 'items' in lo.f:
+        return None
+    which = 'i' if lo.meta.get('name') == '_inequalities' else 'e'
+    _seq_ids[0] += 1
+    sid = z3.IntVal(_seq_ids[0])
+    M = z3.Int(ex.fresh('M'))
+    cnt = lo.f['cnt']
+    vref = find_vars(st)
+    o0 = vars_obj(st, vref)
+    A0 = {a: o0.f[a] for a in ARRS}
+    v, c = z3.Const('v_inv', V), z3.Const('c_inv', C)
+    sel = z3.Select
+    wn, on = ('icnt', 'ecnt') if which == 'i' else ('ecnt', 'icnt')
+    # the rows of variables that are not yet keys are empty
+    for a in ('icnt', 'ecnt'):
+        ex.oblige(st, 'loop-invariant-init', z3.ForAll([v, c], z3.Implies(
+            z3.Not(sel(A0['dom'], v)), sel(sel(A0[a], v), c) == 0)), s,
+            'constructor: before the loop over %s the %s rows of variables '
+            'that are not keys of _variables are empty' % (
+                lo.meta.get('name'), a), extra={'prop': 'C13'})
+    st.pc.append(z3.ForAll([c], BEFORE(sid, M, c) == sel(cnt, c)))
+    st.pc.append(M >= 0)
+
+    def inv(state, kk):
+        o = vars_obj(state, vref)
+        return [
+            ('the keys are the old keys and the variables of the first k '
+             'constraints of the list', z3.ForAll([v], sel(o.f['dom'], v) ==
+                                                  z3.Or(sel(A0['dom'], v),
+                                                        z3.Exists([c], z3.And(
+                                                            inV(c, v), BEFORE(
+                                                                sid, kk, c) >
+                                                            0))))),
+            ("the 'o' flags of old keys are unchanged, new keys have False",
+             z3.ForAll([v], sel(o.f['o'], v) == z3.If(
+                 sel(A0['dom'], v), sel(A0['o'], v), z3.If(
+                     sel(o.f['dom'], v), z3.BoolVal(False),
+                     sel(A0['o'], v))))),
+            ("each variable's '%s' list gained every one of the first k "
+             'constraints that contains it, once per occurrence' % which,
+             z3.ForAll([v, c], sel(sel(o.f[wn], v), c) == sel(sel(
+                 A0[wn], v), c) + z3.If(inV(c, v), BEFORE(sid, kk, c), 0))),
+            ('the other lists are unchanged', z3.ForAll([v, c], sel(sel(
+                o.f[on], v), c) == sel(sel(A0[on], v), c)))]
+
+    def havoc(state, kk):
+        o = vars_obj(state, vref)
+        for a in ARRS:
+            o.f[a] = z3.Const(ex.fresh(a + '@'), A0[a].sort())
+        state.pc.extend(seq_axioms(sid, kk, M))
+        for text, g in inv(state, kk):
+            state.pc.append(g)
+    k = z3.Int(ex.fresh('q'))
+    st.pc.extend(seq_axioms(sid, z3.IntVal(0), M))
+    for text, g in inv(st, z3.IntVal(0)):
+        ex.oblige(st, 'loop-invariant-init', g, s, 'constructor, loop over '
+                  '%s: %s (k = 0)' % (lo.meta.get('name'), text),
+                  extra={'prop': 'C13'})
+    b = st.copy()
+    havoc(b, k)
+    b.pc += [k >= 0, k < M]
+    # the element is in the list: it has the type of the list
+    b.pc.append(isineq(ELEM(sid, k)) if which == 'i' else z3.Not(isineq(
+        ELEM(sid, k))))
+    ex.assign(b, fid, s.target, AbsCon(ELEM(sid, k)), s)
+    for o in ex.exec_block(s.body, b, fid):
+        if o.kind not in ('fall', 'continue'):
+            raise Unsupported('early exit from a loop over a constraint list')
+        for text, g in inv(o.st, k + 1):
+            ex.oblige(o.st, 'loop-invariant-preserved', g, s,
+                      'constructor, loop over %s: %s (k -> k+1)' % (
+                          lo.meta.get('name'), text), extra={'prop': 'C13'})
+        ex.orphans = getattr(ex, 'orphans', [])
+        ex.orphans.extend(o.st.obligs)
+    e = st.copy()
+    havoc(e, M)
+    return [Outcome('fall', e)]
+
+
+L.hooks['loop_kind:abs_clist'] = clist_loop
+
+
 def init_setup(sc):
     """op(objective, constraints): BOUNDED scenarios -- constraints is None,
     one constraint, or a list of 0, 1, 2 or 3 symbolic constraints (equal or
@@ -851,7 +1032,10 @@ def init_setup(sc):
             {'owner': 'INPUT:objective', 'name': 'objective'})
         k = sc['n']
         cons = [AbsCon(z3.Const('c%d' % i, C)) for i in range(max(k, 0))]
-        if k < 0:
+        if sc.get('unbounded'):
+            fr['constraints'] = SeqCon(z3.Int('N'))
+            st.ghost['unbounded'] = True
+        elif k < 0:
             fr['constraints'] = None
         elif sc.get('single'):
             fr['constraints'] = cons[0]
@@ -899,6 +1083,9 @@ def init_outcomes(ex, outs):
         Ec = st.heap[a['_equalities'].oid].f['cnt']
         occ = sum([z3.If(c2 == c_, 1, 0) for c_ in cs]) if cs else \
             z3.IntVal(0)
+        if st.ghost.get('occ') is not None:
+            sid_, N_ = st.ghost['occ']
+            occ = BEFORE(sid_, N_, c2)
         ex.oblige(st, 'edit-effect', z3.And(
             z3.ForAll([c2], z3.Select(Ic, c2) == z3.If(isineq(c2), occ, 0)),
             z3.ForAll([c2], z3.Select(Ec, c2) == z3.If(isineq(c2), 0, occ)),
@@ -915,7 +1102,8 @@ FUNCS = {
                     'scenarios': {'none': {'n': -1},
                                   'single': {'n': 1, 'single': True},
                                   'list0': {'n': 0}, 'list1': {'n': 1},
-                                  'list2': {'n': 2}, 'list3': {'n': 3}},
+                                  'list2': {'n': 2}, 'list3': {'n': 3},
+                                  'listN': {'n': 0, 'unbounded': True}},
                     'on_outcomes': init_outcomes,
                     'config': {'unroll': 8}},
     'op.addconstraint': {'setup': setup_for('addconstraint'),
